@@ -133,7 +133,12 @@ class HeapDriver:
         self.objs = []  # (cls, instance, ext)
 
     def _o(self, *res):
-        return dict(res=tuple(res), objs=tuple((c, value_of(c, o)) for c, o, _ in self.objs))
+        def val(c, o):
+            try:
+                return value_of(c, o)
+            except Exception as e:  # noqa: BLE001  - the instance is no longer what it was constructed as
+                return f"odd {type(e).__name__}: {e}"[:100]
+        return dict(res=tuple(res), objs=tuple((c, val(c, o)) for c, o, _ in self.objs))
 
     def apply(self, name, args):
         if name == "Construct":
@@ -143,6 +148,20 @@ class HeapDriver:
         cls, o, ext = self.objs[args[0] - 1]
         if name == "Poke":
             how = args[1]
+            if how.endswith("dunder"):
+                # the special attributes through which an instance could be swapped out wholesale
+                took = []
+                for attr, val in (("__dict__", {"a": 7, "xs": [9], "v": 9, "w": 9, "value": 9}), ("__class__", Flag),
+                                  ("__verif__", 1), ("__slots__", ()), ("__orig_class__", G[str])):
+                    try:
+                        if how.startswith("set"):
+                            setattr(o, attr, val)
+                        else:
+                            delattr(o, attr)
+                        took.append(attr)
+                    except Exception:  # noqa: BLE001
+                        pass
+                return self._o(how, "accepted " + ",".join(took) if took else "AttributeError")
             attr = ATTR[cls] if how.endswith("existing") else "zzz_new"
             try:
                 if how.startswith("set"):
@@ -253,7 +272,7 @@ def gen_trace(rnd, nobjs=10, nops=30):
             i = rnd.randrange(len(heap)) + 1
             c, v, ext = heap[i - 1]
             if name == "Poke":
-                args = [i, rnd.choice(["set_existing", "set_new", "del_existing", "del_new"])]
+                args = [i, rnd.choice(["set_existing", "set_new", "del_existing", "del_new", "set_dunder", "del_dunder"])]
             elif name == "MutateInput":
                 if c not in ("cont", "deep") or ext == 0:
                     continue
@@ -311,7 +330,8 @@ def run(rep, work, tier, seed):
     traces = gen_traces(rep, lambda: gen_trace(rnd), 200 if tier == "quick" else 3000)
     leg_t_gen(rep, work, SPEC, f"trace_{tier}", traces, **TRACE_KW)
     rep.assumptions += [
-        "object.__setattr__ / __dict__ bypasses are outside the property; NaN excluded",
+        "object.__setattr__(o, ...) and in-place mutation of o.__dict__ are outside the property (assigning o.__dict__, "
+        "o.__class__ or another special attribute is an assignment like any other and is tried); NaN excluded",
         "class family: Flat (default + required attribute), Flat2 (subclass), Cont (Sequence/Set/Mapping built from "
         "external list/set/dict), Nest (nested state, Optional), G[int] and unspecialised G, Miss (Missing-typed default)",
     ]
